@@ -190,7 +190,7 @@ def flux(ctx, nw, ng):
 
 @harness('C02', 'isothermal',
          quick=[dict(n=2, nw=1, kinds=['sigma'], ng=2), dict(n=3, nw=1, kinds=['sigma', 'cia'], ng=2, _shards=4)],
-         thorough=[dict(n=2, nw=2, kinds=['sigma', 'cia'], ng=2, _shards=4), dict(n=3, nw=2, kinds=['sigma'], ng=3, concrete_quad=True, _shards=8),
+         thorough=[dict(n=2, nw=2, kinds=['sigma', 'cia'], ng=2, _shards=4), dict(n=3, nw=2, kinds=['sigma'], ng=2, concrete_quad=True, _shards=8),
                    dict(n=3, nw=1, kinds=['sigma'], ng=2, _shards=4), dict(n=4, nw=1, kinds=['sigma', 'sigma'], ng=2, concrete_quad=True, _shards=8)],
          covers=['unclamped', 'clamped'], functions=FUNCS, stubs=STUBS, shard_depth=4, max_paths=40000)
 def isothermal(ctx, n, nw, kinds, ng, concrete_quad=False):
